@@ -170,21 +170,25 @@ structure Estimator where
   range : Option (Rat × Rat)
   uq : Option UQE
 
-/-- `ThermochemGroupAdditive.__init__(lib, groups)` -/
+/-- end of `__init__`: `ThermochemBase.__init__(self, range=(common_min, common_max))` with its
+`assert range[1] >= range[0]`, or `range=None` when no constituent declares a range -/
+def finish {N : Type} (name : Option (List Nat)) (cs : List (Corr × Rat)) (uq : Option UQE) : Except (EstErr N) Estimator :=
+  match commonRange cs with
+  | none => .ok ⟨name, cs, none, uq⟩
+  | some (lo, hi) => if lo ≤ hi then .ok ⟨name, cs, some (lo, hi), uq⟩ else .error .emptyRange
+
+/-- `ThermochemGroupAdditive.__init__(lib, groups)`: the `(correlation, count)` list, then the uncertainty
+block (only when `lib.uq_contents` is truthy), then the range assertion -/
 def construct (lib : Library N S) (s : S) (groups : List (N × Rat)) : Except (EstErr N) Estimator :=
   match collect lib s groups with
   | .error e => .error e
   | .ok cs =>
-    let fin (uq : Option UQE) : Except (EstErr N) Estimator :=
-      match commonRange cs with
-      | none => .ok ⟨lib.name, cs, none, uq⟩
-      | some (lo, hi) => if lo ≤ hi then .ok ⟨lib.name, cs, some (lo, hi), uq⟩ else .error .emptyRange
     match lib.uq with
-    | none => fin none
+    | none => finish lib.name cs none
     | some u =>
       match buildUQ u groups with
       | .error e => .error e
-      | .ok q => fin (some q)
+      | .ok q => finish lib.name cs (some q)
 
 /-- `GroupLibrary.Estimate(groups, property_set_name)`; `registered` = keys of `_property_set_estimator_types` -/
 def estimate (registered : List S) (lib : Library N S) (groups : List (N × Rat)) (s : S) :
